@@ -21,7 +21,10 @@ def ash_cls(ctx):
 
 def inline_ash(stop=()):
     def pol(f: FuncRef, awaited):
-        return f.cls is not None and f.cls.name == "AshProtocol" and f.name not in stop and not f.is_async
+        if f.name in stop or f.is_async:
+            return False
+        # methods of the protocol class, and module-level helpers of the ASH module (extracting one must not change a verdict)
+        return (f.cls is not None and f.cls.name == "AshProtocol") or (f.cls is None and f.mod == ASH)
 
     return pol
 
